@@ -67,6 +67,7 @@ def run(facts, tier):
     staleidx.rule(facts, res, "R07-3", lambda f: f["crate"] in ("xml_info", "xml_dom"), floor=7)
     c14.c14_8(facts, res, "R07-4")
     fresh_key_rule(facts, res, "R07-5")
+    no_id_in_evaluator(facts, res, "R07-6")
     res.functions_analysed = len(fns)
     return res
 
@@ -115,6 +116,25 @@ def fresh_key_rule(facts, res, rule="R07-5"):
                                 % (f["path"], kind, d), f["file"], n.get("ln"), {}))
     if st["instances"] < 12:
         raise BrokenCheck("%s: %d item constructions (floor 12)" % (rule, st["instances"]))
+
+
+def no_id_in_evaluator(facts, res, rule="R07-6"):
+    """Node-sets are ordered and de-duplicated by XmlNode::order().  The creation id (XmlNode::id()) follows document order
+    only on a freshly parsed document; after an edit a newer node may precede an older one.  The evaluator therefore never
+    asks for id()."""
+    st = res.rule(rule, instances=0)
+    for f in sorted(facts.fns.values(), key=lambda x: x["path"]):
+        if f["crate"] != "xml_xpath" or not f["path"].startswith(("xml_xpath::eval::", "xml_xpath::<eval::")) or "mir" not in f or "::tests::" in f["path"]:
+            continue
+        st["instances"] += 1
+        for bi, t in facts.mir_calls(f):
+            c = t.get("callee")
+            if c and facts.callee_name(c) == "xml_dom::XmlNode::id":
+                res.oblige(1, False)
+                res.add(Finding(rule, f["path"] + "|id", "%s calls XmlNode::id(): creation order is not document order on an edited document; "
+                                "sort, compare and de-duplicate by order()" % f["path"], f["file"], t.get("ln"), {}))
+    if st["instances"] < 60:
+        raise BrokenCheck("%s: %d evaluator functions (floor 60)" % (rule, st["instances"]))
 
 
 def summary_rule(facts, res, rule="R07-1"):
